@@ -104,6 +104,14 @@ CHECKS["C20"] = dict(ref="5/C20", text="Weights.tla states the relations: one st
     "seeds, Dirichlet parameter vectors over shapes {0.01..100} incl. invalid ones, categories 2..32 x shapes, and x grids straddling the series/continued-fraction switch "
     "up to 1e5*alpha; TLC validates every event.", note="Sampled seeds and grids; distributional correctness of the samplers is not claimed. Trusted: TLC, java.lang.Math, F64 glue.",
     tech="TLA+ relations and series definition (Weights.tla, IEEE doubles via a TLC module override); recorded samples and function values validated by TLC (Trace_Weights)")
+
+CHECKS["C17"] = dict(ref="5/C17", text="ProtDist.tla counts the pair frequency table in exact integers (selected sites, quarter-unit weights, gap/X/* positions masked) and evaluates in IEEE "
+    "doubles inside TLC the likelihood lnL(d) = sum F_ij ln(pi_i P_ij(d)) with P(d) assembled from the eigen-system and frequencies the model under test really uses "
+    "(observed read-only through reflection), plain or with gamma-distributed rates. For every pair reported below 20, TLC requires lnL(d*) >= lnL(d') - tol for "
+    "d' = d*(1 +- 1e-3), d*(1 +- 1e-2) and a 24-point log grid on [1e-8, 20]; plus symmetry, zero diagonal, range, zero without unambiguous difference, and the row / column "
+    "reordering relations on pairs of real calls (7 models x model/empirical frequencies x gamma x rm-gaps x weights, fragments and masked rows).",
+    note="The maximiser is compared with 28 other distances, not with all reals; the eigen-system is observed, its relation to the textbook rate matrix is C18's subject. Trusted: TLC, java.lang.Math, F64 glue.",
+    tech="TLA+ specification of the pair likelihood (ProtDist.tla, IEEE doubles via a TLC module override); recorded matrices and eigen-systems validated by TLC (Trace_ProtDist)")
 NA = []
 def main():
     props = [json.loads(l)["id"] for l in open(os.path.join(V, "properties.jsonl"))]
